@@ -195,6 +195,14 @@ func (lg *ledger) postBounds(call *ssa.Call, flagIdx int) []diffC {
 		var cands []post
 		nres := g.Signature.Results().Len()
 		for i := 0; i < nres; i++ {
+			// a slice result as long as a slice parameter (a loop that fills make([]T, len(p)))
+			if i != flagIdx && isSliceType(g.Signature.Results().At(i).Type()) {
+				for k, prm := range g.Params {
+					if isSliceType(prm.Type()) {
+						cands = append(cands, post{i, "samelen", k})
+					}
+				}
+			}
 			if i == flagIdx || !isIntType(g.Signature.Results().At(i).Type()) {
 				continue
 			}
@@ -222,11 +230,23 @@ func (lg *ledger) postBounds(call *ssa.Call, flagIdx int) []diffC {
 				}
 			} else if definitelyNonNil(fv) {
 				continue
+			} else if isErrorType(fv.Type()) {
+				// `if err != nil { return nil, err }`: the error is known to be non-nil where it is returned
+				if ok, _ := lgG.prove(pred{kind: pIfaceNonNil, v: fv}, b); ok {
+					continue
+				}
 			}
 			nRet++
 			facts := lgG.boundFacts(b)
 			var keep []post
 			for _, c := range cands {
+				if c.kind == "samelen" {
+					lk, pk := "len("+lgG.key(r.Results[c.res])+")", "len("+lgG.key(g.Params[c.param])+")"
+					if entails(facts, lk, pk, 0) && entails(facts, pk, lk, 0) {
+						keep = append(keep, c)
+					}
+					continue
+				}
 				rb, ro := lgG.term(r.Results[c.res])
 				ok := false
 				switch c.kind {
@@ -268,6 +288,9 @@ func (lg *ledger) postBounds(call *ssa.Call, flagIdx int) []diffC {
 			out = append(out, diffC{lg.key(ex), "Len(" + lg.key(call.Call.Args[ps.param]) + ")", -1})
 		case "len":
 			out = append(out, diffC{lg.key(ex), "len(" + lg.key(call.Call.Args[ps.param]) + ")", -1})
+		case "samelen":
+			lk, pk := "len("+lg.key(ex)+")", "len("+lg.key(call.Call.Args[ps.param])+")"
+			out = append(out, diffC{lk, pk, 0}, diffC{pk, lk, 0})
 		}
 	}
 	return out
@@ -708,6 +731,18 @@ func (lg *ledger) implies(f edgeFact, p pred) bool {
 		if p.kind == pConvertible {
 			name = "ConvertibleTo"
 		}
+		// the two types were found identical (t == u on reflect.Type values)
+		if bo, ok := cond.(*ssa.BinOp); ok && (bo.Op == token.EQL || bo.Op == token.NEQ) && truth == (bo.Op == token.EQL) &&
+			namedIs(bo.X.Type(), "reflect", "Type") && namedIs(bo.Y.Type(), "reflect", "Type") {
+			kx, ky, kv := lg.key(bo.X), lg.key(bo.Y), lg.key(p.v)
+			kb := p.bKey
+			if p.b != nil {
+				kb = lg.key(p.b)
+			}
+			if kb != "" && ((kx == kv && ky == kb) || (ky == kv && kx == kb)) {
+				return true
+			}
+		}
 		if recv, args, ok := reflectTypeInvoke(cond, name); ok && truth && len(args) == 1 {
 			if lg.key(recv) == lg.key(p.v) {
 				if p.b != nil && lg.key(args[0]) == lg.key(p.b) {
@@ -721,6 +756,27 @@ func (lg *ledger) implies(f edgeFact, p pred) bool {
 	case pComparable:
 		if recv, _, ok := reflectTypeInvoke(cond, "Comparable"); ok && truth && lg.key(recv) == lg.key(p.v) {
 			return true
+		}
+		// identical to the key type of a map: key types are comparable
+		if bo, ok := cond.(*ssa.BinOp); ok && (bo.Op == token.EQL || bo.Op == token.NEQ) && truth == (bo.Op == token.EQL) &&
+			namedIs(bo.X.Type(), "reflect", "Type") && namedIs(bo.Y.Type(), "reflect", "Type") {
+			other := ssa.Value(nil)
+			switch lg.key(p.v) {
+			case lg.key(bo.X):
+				other = bo.Y
+			case lg.key(bo.Y):
+				other = bo.X
+			}
+			if other != nil {
+				// (the subject must be the type of a value that came out of reflect.ValueOf: a concrete dynamic type)
+				if _, _, isKey := reflectTypeInvoke(throughCell(other), "Key"); isKey {
+					if val, _, isType := reflectValueCall(throughCell(p.v), "Type"); isType {
+						if _, isVO := reflectFunc(throughCell(val), "ValueOf"); isVO {
+							return true
+						}
+					}
+				}
+			}
 		}
 	case pDynType:
 		if ex, ok := cond.(*ssa.Extract); ok && ex.Index == 1 && truth {
@@ -819,6 +875,24 @@ func (lg *ledger) kindFact(cond ssa.Value, truth bool, subject ssa.Value, isType
 		recv = r
 	} else {
 		r, _, ok := reflectValueCall(x, "Kind")
+		if !ok {
+			// a kind kept in a variable next to the value it belongs to: k := v.Kind(); if k == Ptr { v = v.Elem(); k = v.Kind() }
+			// - the two phis take corresponding inputs on every edge
+			if kp, isPhi := x.(*ssa.Phi); isPhi {
+				if sp, isSP := throughCell(subject).(*ssa.Phi); isSP && sp.Block() == kp.Block() && len(sp.Edges) == len(kp.Edges) {
+					all := true
+					for i := range kp.Edges {
+						kr, _, isKind := reflectValueCall(kp.Edges[i], "Kind")
+						if !isKind || lg.key(kr) != lg.key(sp.Edges[i]) {
+							all = false
+						}
+					}
+					if all {
+						r, ok = subject, true
+					}
+				}
+			}
+		}
 		if !ok {
 			// the kind of v.Type() is the kind of v
 			if tr, _, ok2 := reflectTypeInvoke(x, "Kind"); ok2 {
@@ -1441,6 +1515,38 @@ func (lg *ledger) byConstruction(p pred, at *ssa.BasicBlock, ctx *proofCtx) stri
 			}
 			if ok1, why := lg.proveIn(pred{kind: k, v: v}, at, ctx); ok1 {
 				return "asserting the value's own interface type only requires it to be non-nil (" + why + ")"
+			}
+		}
+	case pComparable:
+		// the key type of a map is comparable as a type; a VALUE of it is hashable unless the key type is an
+		// interface type holding something unhashable - excluded when its kind was found equal to the kind
+		// of the type of a value that came out of reflect.ValueOf (never Interface)
+		if _, _, ok := reflectTypeInvoke(v, "Key"); ok {
+			for _, f := range append(append([]edgeFact(nil), dominatingFacts(at)...), ctx.extra...) {
+				bo, isBO := f.cond.(*ssa.BinOp)
+				if !isBO || (bo.Op != token.EQL && bo.Op != token.NEQ) || f.truth != (bo.Op == token.EQL) {
+					continue
+				}
+				ka, _, okA := reflectTypeInvoke(bo.X, "Kind")
+				kb, _, okB := reflectTypeInvoke(bo.Y, "Kind")
+				if !okA || !okB {
+					continue
+				}
+				other := ssa.Value(nil)
+				switch lg.key(v) {
+				case lg.key(ka):
+					other = kb
+				case lg.key(kb):
+					other = ka
+				}
+				if other == nil {
+					continue
+				}
+				if val, _, isType := reflectValueCall(throughCell(other), "Type"); isType {
+					if _, isVO := reflectFunc(throughCell(val), "ValueOf"); isVO {
+						return "a map's key type whose kind equals that of a concrete dynamic type: not an interface, hence hashable"
+					}
+				}
 			}
 		}
 	case pNotNilValue:
